@@ -270,6 +270,12 @@ func cmdReplay(args []string) int {
 	if spec.Replay != nil {
 		return spec.Replay(*file, *verbose)
 	}
+	// listed known findings are stepped over exactly as in the run that wrote the file, unless the
+	// file is the replay of such a finding itself
+	known := loadKnown()
+	if known.match(sc.Expect) == nil {
+		chain.IsKnown = func(sig string) bool { return known.match(sig) != nil }
+	}
 	w := runOne(spec, &sc)
 	if w.InfraErr != nil {
 		fmt.Println("INFRA", w.InfraErr)
